@@ -129,6 +129,13 @@ def gen_case(rng, params, idx):
                 args.append(rng.choice([["v", 1], ["v", "s"], ["v", 2.5], ["v", True],
                                         ["i", rng.choice([s["name"] for s in hier])]]))
         calls.append(args)
+    for j, pj in ((0, p0), (1, p1)):
+        if all(isinstance(m["pos"][j]["t"], str) and m["pos"][j]["t"] != "type" for m in methods) and rng.random() < 0.5:
+            # no type[...] annotation at this position: classes passed there are looked up by their own type, i.e.
+            # dispatched on their *metaclass* (ABCs and protocols have ABCMeta)
+            for m in methods:
+                if rng.random() < 0.5:
+                    m["pos"][j]["t"] = "ABCMeta"
     return {"hier": hier, "methods": methods, "calls": calls, "strict_first": strict, "refine": spec_refine}
 
 
@@ -140,7 +147,8 @@ def _param_accepts(ptx, env, vx, val):
     if isinstance(ptx, str) and ptx != "type":
         C = env.cls(ptx)
         if _is_passed(vx):
-            return C is object      # a passed type is an object; it is not an instance of any other plain class
+            # a passed type is an object - and an instance of its metaclass; of no other plain class
+            return isinstance(val, C) if isinstance(val, type) else C is object
         return isinstance(val, C)
     if not _is_passed(vx):
         return False
